@@ -73,6 +73,8 @@ pub struct Stats {
     pub extra_evals: u64,
     /// generic coverage bitmap (e.g. C13: which (digit count, terminator) kernel cases were hit)
     pub bits: Vec<u64>,
+    /// maxima (merged by max, reported as counters `max.<name>`)
+    pub maxes: BTreeMap<String, u64>,
 }
 
 const DISTINCT_CAP: usize = 3_000_000;
@@ -87,6 +89,12 @@ impl Stats {
             *v += n;
         } else {
             self.counters.insert(k.to_string(), n);
+        }
+    }
+    pub fn max(&mut self, k: &str, v: u64) {
+        let e = self.maxes.entry(k.to_string()).or_insert(0);
+        if v > *e {
+            *e = v;
         }
     }
     #[inline]
@@ -110,6 +118,9 @@ impl Stats {
         }
         self.steps += other.steps;
         self.extra_evals += other.extra_evals;
+        for (k, v) in other.maxes {
+            self.max(&k, v);
+        }
         if self.bits.len() < other.bits.len() {
             self.bits.resize(other.bits.len(), 0);
         }
@@ -201,6 +212,8 @@ pub fn search<P: Prop>(p: &P, opts: &Opts) -> Outcome<P::Case> {
         cur.resize(threads, (u64::MAX, Instant::now()));
     }
     let watchdog_done = AtomicBool::new(false);
+    // block size: big enough to keep contention low, small enough to balance short batches
+    let block: u64 = (total / (threads as u64 * 8)).clamp(1, 64);
 
     std::thread::scope(|scope| {
         // watchdog: turns a hang into a report instead of a silent stall
@@ -244,11 +257,11 @@ pub fn search<P: Prop>(p: &P, opts: &Opts) -> Outcome<P::Case> {
                     if stop.load(Ordering::Relaxed) {
                         break;
                     }
-                    let lo = next.fetch_add(64, Ordering::Relaxed);
+                    let lo = next.fetch_add(block, Ordering::Relaxed);
                     if lo >= total {
                         break;
                     }
-                    for run in lo..(lo + 64).min(total) {
+                    for run in lo..(lo + block).min(total) {
                         {
                             let mut cur = CURRENT.lock().unwrap();
                             cur[w] = (run, Instant::now());
@@ -323,7 +336,7 @@ pub fn search<P: Prop>(p: &P, opts: &Opts) -> Outcome<P::Case> {
 }
 
 /// The two native builds use different streams so that together they cover more cases.
-fn stream_tag() -> &'static str {
+pub fn stream_tag() -> &'static str {
     if cfg!(debug_assertions) {
         "dbg"
     } else {
